@@ -9,7 +9,13 @@ def parsePyVal (j : Json) : PyVal :=
   | .null => .none
   | .bool b => .bool b
   | .str s => .str s
-  | .arr a => .strList (a.toList.map asStr)
+  | .arr a =>
+    .seq (a.toList.map fun e =>
+      match e with
+      | .str s => Entry.str s
+      | _ => match e.getObjVal? "path" with
+        | .ok (.arr q) => Entry.path (q.toList.map asStr)
+        | _ => Entry.str "?")
   | .num _ => .int (asInt j)
   | .obj _ =>
     match j.getObjVal? "path" with
@@ -24,6 +30,9 @@ def jPyVal : PyVal → Json
   | .int n => jint n
   | .str s => .str s
   | .strList l => jarr (l.map jstr)
+  | .seq l => jarr (l.map fun e => match e with
+      | .str s => jstr s
+      | .path q => jobj [("path", jparts q)])
   | .path p => jobj [("path", jparts p)]
   | .other => jobj [("other", .null)]
 
@@ -64,17 +73,36 @@ def handle (j : Json) : Json :=
     let w : World := { envSysPath := strs j "env", scriptPath := script, buildout := strs j "buildout",
                        hasInit := fun d => inits.contains d }
     jarr ((getSysPath composeOrder traversedReversed c w (bool j "add_parent") (bool j "add_init")).map jstr)
+  | "project_syspath" =>
+    -- Project(**kw) in cwd, then _get_sys_path for the three flag combinations
+    let cwd := strs j "cwd"
+    match init initParams envPathStr pathAlwaysAbsolute cwd (parseKw (obj j "kw")) with
+    | .error e => jobj [("init", jErr e)]
+    | .ok p =>
+      let c : Cfg := { projPath := p.path, sysPath := p.sysPath, added := p.added, smart := p.smart,
+                       django := bool j "django" }
+      let inits : List Parts := (arr j "inits").map fun x => (asArr x).map asStr
+      let script : Option Parts :=
+        match j.getObjVal? "script" with
+        | .ok (.arr a) => some (a.toList.map asStr)
+        | _ => none
+      let w : World := { envSysPath := strs j "env", scriptPath := script, buildout := strs j "buildout",
+                         hasInit := fun d => inits.contains d }
+      let run := fun ap ai => jarr ((getSysPath composeOrder traversedReversed c w ap ai).map jstr)
+      jobj [("constructed", jProject p),
+            ("default", run defaultAddParentPaths defaultAddInitPaths),
+            ("init_paths", run true true), ("no_parents", run false false)]
   | "saveload" =>
     -- construct with kwargs, optionally touch `_environment` / `_django`, save, load
     let cwd := strs j "cwd"
-    match init initParams envPathStr cwd (parseKw (obj j "kw")) with
+    match init initParams envPathStr pathAlwaysAbsolute cwd (parseKw (obj j "kw")) with
     | .error e => jobj [("init", jErr e)]
     | .ok p =>
       let p := { p with environment := bool j "environment", django := bool j "django" }
       match save initAttrs savePopped serializerVersion p with
       | .error e => jobj [("constructed", jProject p), ("save", jErr e)]
       | .ok file =>
-        match load initParams envPathStr cwd file with
+        match load initParams envPathStr pathAlwaysAbsolute cwd file with
         | .error e => jobj [("constructed", jProject p), ("load", jErr e)]
         | .ok q => jobj [("constructed", jProject p),
                          ("file", jarr (file.2.map fun kv => jarr [jstr kv.1, jPyVal kv.2])),
